@@ -149,3 +149,30 @@ package types
 //@   ensures [C20.Splice.err] (start < 0 || start > len(old(s.elements))) ==> result1 == ErrIndexOutOfBounds && result0 == nil
 //@   ensures [C20.Splice.noshare] backing(s.elements) == backing(old(s.elements)) || fresh(backing(s.elements))
 //@   ensures [C20.Splice.lock] heldmode(s.mu) == 0
+
+// ---- Set and Map: abstracted by version counters (types/map.go is a lock-free port of sync.Map on atomics and
+// unsafe and is outside the verified subset; Set is a mutex-protected Go map) ---------------------------
+//@ ghost field (*Set).$setver int
+//@ ghost field (*Map).$mapver int
+
+//@ func (*Set).Has(key)
+//@   trusted "mutex-protected Go map abstracted as a function of (set, key, version)"
+//@   pure
+//@   ensures result == uf_b_setHas(s, key, s.$setver)
+
+//@ func (*Map).Load(key)
+//@   trusted "types/map.go (sync.Map port on atomics/unsafe) is outside the verified subset"
+//@   pure
+//@   ensures ok == uf_b_mapHas(m, key, m.$mapver)
+//@   ensures ok ==> value != nil   // every Store of this code base stores a non-nil value (precondition of Store below)
+
+//@ func (*Map).Store(key, value)
+//@   trusted "types/map.go (sync.Map port on atomics/unsafe) is outside the verified subset"
+//@   requires value != nil
+//@   modifies m.$mapver
+//@   ensures uf_b_mapHas(m, key, m.$mapver)
+
+//@ func (*Map).Delete(key)
+//@   trusted "types/map.go (sync.Map port on atomics/unsafe) is outside the verified subset"
+//@   modifies m.$mapver
+//@   ensures !uf_b_mapHas(m, key, m.$mapver)
